@@ -46,7 +46,7 @@ def main():
             "guard": "FRAME_VERIF",
             "enable": "checks run the implementation with FRAME_VERIF=1 in the environment (set by ./check); Python, so no rebuild",
             "baseline_off_cmd": "cd /repo && env -u FRAME_VERIF /venv/bin/python -m pytest -ra -q -p no:cacheprovider --timeout=900 --continue-on-collection-errors",
-            "source_commits": [],
+            "source_commits": ["8a88eca"],
             "add_only": True,
         },
         "engines": [{
